@@ -25,7 +25,7 @@ func init() {
 		Tech:        "static analysis: guarded-by-condition (dominating branch facts) on SSA, boolean-disjunct structure, value provenance",
 		NeedU1:      true,
 		NeedU2:      true,
-		Rules:       []func(*Ctx){ruleC04LatestRevalidated, ruleC04LoaderRejectsInvalid, ruleC04ExpiryArithmeticExact, ruleC05PolicyDurationsVerbatim, ruleC04NewKeysStampedNow, ruleC05MergeIdentity, ruleC04FreshnessRenewal, ruleC04LatestMapMonotonic, ruleC05FreshnessWriters, ruleC05StaleMeansReload, ruleC13ConsistentReads, ruleC02SuccessIsStoreBool, ruleC01OldKeysAddressable, ruleC04EntryStampedNow, ruleC05SidecarPolicyVerbatim},
+		Rules:       []func(*Ctx){ruleC04LatestRevalidated, ruleC04LoaderRejectsInvalid, ruleC04ExpiryArithmeticExact, ruleC05PolicyDurationsVerbatim, ruleC04NewKeysStampedNow, ruleC05MergeIdentity, ruleC04FreshnessRenewal, ruleC04LatestMapMonotonic, ruleC05FreshnessWriters, ruleC05StaleMeansReload, ruleC13ConsistentReads, ruleC02SuccessIsStoreBool, ruleC01OldKeysAddressable, ruleC04EntryStampedNow, ruleC05SidecarPolicyVerbatim, ruleC04CallersContextReachesTheStore},
 	})
 	register(&propSpec{
 		ID:            "C05",
@@ -41,7 +41,7 @@ func init() {
 		Tech:        "static analysis: guarded-by-condition and must-pass-through on SSA over key_cache.go/envelope.go",
 		NeedU1:      true,
 		NeedU2:      true,
-		Rules:       []func(*Ctx){ruleC05StaleMeansReload, ruleC05ReloadRefreshes, ruleC05ReloadResultUsed, ruleC05PolicyDurationsVerbatim, ruleC13ProjectionCoversRecord, ruleC13RecordLiteralsComplete, ruleC01LatestLookupUsesMarker, ruleC05MergeIdentity, ruleC04LatestRevalidated, ruleC01NoValidityGateOnRead, ruleC08RefcountProtocol, ruleC04FreshnessRenewal, ruleC05FreshnessWriters, ruleC13FieldFidelity, ruleC15SetStoresValue, ruleC13ConsistentReads, ruleC04LatestMapMonotonic, ruleC13ReadsHitBackend, ruleC02SuccessIsStoreBool, ruleC02FreshKeyOnlyIfStored, ruleC04ExpiryArithmeticExact, ruleC13DecodedRecordComplete, ruleC05SidecarPolicyVerbatim, ruleC01ProvenanceDecrypt},
+		Rules:       []func(*Ctx){ruleC05StaleMeansReload, ruleC05ReloadRefreshes, ruleC05ReloadResultUsed, ruleC05PolicyDurationsVerbatim, ruleC13ProjectionCoversRecord, ruleC13RecordLiteralsComplete, ruleC01LatestLookupUsesMarker, ruleC05MergeIdentity, ruleC04LatestRevalidated, ruleC01NoValidityGateOnRead, ruleC08RefcountProtocol, ruleC04FreshnessRenewal, ruleC05FreshnessWriters, ruleC13FieldFidelity, ruleC15SetStoresValue, ruleC13ConsistentReads, ruleC04LatestMapMonotonic, ruleC13ReadsHitBackend, ruleC02SuccessIsStoreBool, ruleC02FreshKeyOnlyIfStored, ruleC04ExpiryArithmeticExact, ruleC13DecodedRecordComplete, ruleC05SidecarPolicyVerbatim, ruleC01ProvenanceDecrypt, ruleC04CallersContextReachesTheStore},
 	})
 }
 
